@@ -13,6 +13,7 @@ var monitors = map[string]func(*core.Child){
 	"c02": codec.C02,
 	"c03": codec.C03,
 	"c12": codec.C12,
+	"c13": codec.C13,
 }
 
 func main() { core.ChildMain(monitors) }
